@@ -107,7 +107,8 @@ def run_harness(cases, tag, exe=None, timeout=900):
     res, cur = {}, None
     for line in out.split("\n"):
         if line.startswith("begin "):
-            cur = {"D1": [], "D2": [], "T1": [], "T2": [], "C2": [], "X1": [], "X2": [], "done": False}
+            cur = {"D1": [], "D2": [], "T1": [], "T2": [], "C2": [], "X1": [], "X2": [], "L1": [], "L2": [],
+                   "done": False}
             res[line[6:]] = cur
             continue
         if cur is None:
@@ -117,15 +118,16 @@ def run_harness(cases, tag, exe=None, timeout=900):
             cur = None
             continue
         k, _, v = line.partition(" ")
-        if k in ("D1", "D2", "T1", "T2", "C2", "X1", "X2"):
+        if k in ("D1", "D2", "T1", "T2", "C2", "X1", "X2", "L1", "L2"):
             cur[k].append(v)
         elif k in ("RAW", "W1", "W2", "wlen", "w2", "wcb", "text", "readerr", "builderr", "writeerr", "readcb",
-                   "decodeerr"):
+                   "decodeerr", "rebuild"):
             cur[k] = v
     os.remove(path)
     for c in cases:
         if c.id not in res:
-            res[c.id] = {"done": False, "D1": [], "D2": [], "X1": [], "X2": [], "C2": [], "T1": [], "T2": []}
+            res[c.id] = {"done": False, "D1": [], "D2": [], "X1": [], "X2": [], "C2": [], "T1": [], "T2": [],
+                         "L1": [], "L2": []}
         if not res[c.id]["done"]:
             res[c.id]["crash"] = "rc=%s %s" % (rc, err[-1500:])
     return res
@@ -200,7 +202,9 @@ PROP_CODES = {T.code[n] for n in ("PRSET", "PRBEQ", "PRBNE") if n in T.code}
 
 def features(d1):
     f = set()
-    for l in d1:
+    for i, l in enumerate(d1):
+        if l == "endfunc" and i > 0 and d1[i - 1].startswith("label "):
+            f.add("trailing")
         w = l.split(" ", 3)
         if w[0] == "global":
             f.add("global")
@@ -224,13 +228,11 @@ def classify(case, hr, dr_read, dr_alt):
         if model_same:
             for flag, feat, sig in (("c", "props", "C11:property-insns-rejected"),
                                     ("p", "data_p", "C11:data-type-p"),
-                                    ("g", "global", "C11:global-hard-reg-var")):
+                                    ("g", "global", "C11:global-hard-reg-var"),
+                                    ("e", "trailing", "C11:trailing-label")):
                 r = dr_alt.get(flag)
                 if feat in feats and r is not None and r.get("lines") == d1:
                     return sig
-        err = hr.get("readerr", "")
-        if "endfunc should have no labels" in err:
-            return "C11:trailing-label"
         return "C11:roundtrip"
     return None
 
@@ -318,6 +320,48 @@ def judge(case, hr, drw, drr, dalt):
             tie_breaks.append((case, "read", {"first_diff": first_diff(drr["lines"], hr["D2"])}))
         else:
             stats["model_read_ok"] += 1
+    # label identity (pointer level) in the re-read module
+    if "readerr" not in hr and hr["L2"]:
+        bad_f = [l for l in hr["L2"] if l.startswith("func") and
+                 (l.split("ops=")[1].split()[0] != l.split("attached=")[1].split()[0] or not l.endswith("dup=0"))]
+        if bad_f:
+            out.append(("a label operand of the re-read module is not the label insn of its function",
+                        "C11:label-identity", {"lines": bad_f[:5]}))
+        stats["label_ops_checked"] = stats.get("label_ops_checked", 0) + sum(
+            int(l.split("ops=")[1].split()[0]) for l in hr["L2"] if l.startswith("func"))
+        bad_l = [l for l in hr["L2"] if l.startswith("lref") and ("attached=0" in l or ",0" in l)]
+        exp_orphan = CFG["lrefOrphan"]
+        if bad_l:
+            out.append(("the labels of an lref item of the re-read module are not label insns of any function "
+                        "(model: lrefOrphan=%s)" % exp_orphan, "C11:lref-orphan-labels", {"lines": bad_l[:5]}))
+        elif exp_orphan and any(l.startswith("lref") for l in hr["L2"]):
+            tie_breaks.append((case, "lref-labels", {"model": "orphan labels", "impl": hr["L2"][:5]}))
+    if [l for l in hr["L1"] if l.startswith("func") and
+            l.split("ops=")[1].split()[0] != l.split("attached=")[1].split()[0]]:
+        case.meta["input_labels_detached"] = True
+    # the same description built twice (differently scribbled stack) must give the same bytes
+    rb = hr.get("rebuild")
+    if rb is not None and rb.startswith("diff"):
+        off = int(rb.split("raw-offset=")[1].split()[0])
+        if drw is not None and "ldpad" in drw and off in drw["ldpad"]:
+            out.append(("the padding bytes of a long double token are uninitialised memory: the same module built "
+                        "twice is written differently (%s)" % rb, "C11:ldouble-padding-uninit", {"rebuild": rb}))
+        else:
+            out.append(("the same module description built twice is written differently (%s)" % rb,
+                        "C11:write-nondeterministic", {"rebuild": rb}))
+    ra = hr.get("RAW_again")
+    if ra is not None and ra != raw:
+        a, b = bytes.fromhex(raw), bytes.fromhex(ra)
+        k = next((i for i in range(min(len(a), len(b))) if a[i] != b[i]), min(len(a), len(b)))
+        diffs = [i for i in range(min(len(a), len(b))) if a[i] != b[i]]
+        if drw is not None and "ldpad" in drw and len(a) == len(b) and all(i in set(drw["ldpad"]) for i in diffs):
+            out.append(("two runs of the same program write the same module differently: the 6 padding bytes of "
+                        "long double tokens are uninitialised memory (first difference at raw offset %d: %s vs %s)"
+                        % (k, a[k:k + 6].hex(), b[k:k + 6].hex()), "C11:ldouble-padding-uninit",
+                        {"offsets": diffs[:12]}))
+        else:
+            out.append(("two runs of the same program write the same module differently (raw offset %d)" % k,
+                        "C11:write-nondeterministic", {"offsets": diffs[:12]}))
     # (d) execution / loadability
     if hr["X1"] or hr["X2"]:
         x1, x2 = hr["X1"], hr["X2"]
@@ -363,11 +407,18 @@ def process(cases, tag, exe=None, timeout=600):
             n += 1
             bad = ("readerr" in hr) or (hr["D2"] != hr["D1"])
             if bad:
-                for fl in ("g", "c", "p"):
+                for fl in ("g", "c", "p", "e"):
                     cmds.append(("readx", fl, hr["RAW"]))
-                n += 3
+                n += 4
         idx[c.id] = (k, n)
     dres = run_driver(cmds) if cmds else []
+    # the same cases once more in another process (address space layout differs): same bytes expected
+    again = [c for c in cases if "rebuild" in c.flags and "RAW" in hres[c.id]]
+    if again:
+        h2 = run_harness(again, tag + "_again", exe, timeout=timeout)
+        for c in again:
+            if "RAW" in h2[c.id]:
+                hres[c.id]["RAW_again"] = h2[c.id]["RAW"]
     out = []
     for c in cases:
         hr = hres[c.id]
@@ -378,8 +429,8 @@ def process(cases, tag, exe=None, timeout=600):
             drw = dres[k]
             if n >= 2:
                 drr = dres[k + 1]
-            if n >= 5:
-                dalt = {"g": dres[k + 2], "c": dres[k + 3], "p": dres[k + 4]}
+            if n >= 6:
+                dalt = {"g": dres[k + 2], "c": dres[k + 3], "p": dres[k + 4], "e": dres[k + 5]}
         c.hr, c.drw = hr, drw
         out.append((c, judge(c, hr, drw, drr, dalt)))
     return out
@@ -460,7 +511,13 @@ def unit_probes():
     L.append("data - 9 %d %s" % (len(c11_gen.D_BITS), " ".join(map(str, c11_gen.D_BITS))))
     L.append("data - 10 %d %s" % (len(c11_gen.LD_BITS), " ".join("%d_%d" % p for p in c11_gen.LD_BITS)))
     L.append("endmodule")
-    P.append(Case("unit-int-lengths", L, kind="unit"))
+    P.append(Case("unit-int-lengths", L, flags=["rebuild"], kind="unit"))
+    # long double immediates: the token carries 6 padding bytes
+    L = ["module " + x(b"m"), "func %s 0 1 10 0" % x(b"f"), "local 10 %s" % x(b"r")]
+    for lo, hi in c11_gen.LD_BITS:
+        L.append("insn %d 2 r:%s L:%d_%d" % (C["LDMOV"], x(b"r"), lo, hi))
+    L += ["insn %d 1 L:5_16384" % C["RET"], "endfunc", "endmodule"]
+    P.append(Case("unit-ldouble-imm", L, flags=["rebuild"], kind="unit"))
     # every memory operand shape x alias
     L = ["module " + x(b"m"), "func %s 0 0 1 6 %s 0" % (x(b"f"), x(b"b")), "local 6 %s" % x(b"i"),
          "local 6 %s" % x(b"r")]
@@ -489,7 +546,7 @@ def gen_cases(n, rng, prefix="g"):
         k = rng.below(10)
         feats = {"lref": k == 1, "expr": True,
                  "globals": not CFG["globalDoubleRead"], "props": CFG["codeLimit"] > max(PROP_CODES or [0]),
-                 "data_p": CFG["dataPtr"]}
+                 "data_p": CFG["dataPtr"], "trailing_label": CFG["endfuncLabels"] and k == 9}
         if k < 3:
             lines, calls = g.gen_exec_case(1 + rng.below(4), rng.choice([3, 10, 40]))
             out.append(Case("%s%d" % (prefix, i), lines, flags=["exec"], calls=calls, kind="exec"))
@@ -498,6 +555,8 @@ def gen_cases(n, rng, prefix="g"):
         lines = []
         flags = ["load"] if (feats["lref"] or rng.chance(1, 3)) else []
         feats["loadable"] = bool(flags)
+        if rng.chance(1, 4):
+            flags.append("rebuild")
         for _ in range(nmod):
             lines += g.gen_module(rng.choice([1, 3, 8, 20]), rng.choice([0, 2, 10, 40, 120]), feats)
         if rng.chance(1, 6):
@@ -789,7 +848,7 @@ try:
     t0 = time.time()
     if ck.replay:
         d = json.load(open(ck.replay))
-        c = Case.from_json(d["input"])
+        c = Case.from_json(d.get("input") or d)
         run_all([c], label="replay")
     else:
         token_tie()
@@ -815,16 +874,26 @@ try:
             # assert-enabled flavour on a sample (mir_assert active in the writer)
             run_all(gen_cases(120, ck.rng, prefix="a") + unit_probes(), exe=HARNESS_ASSERT, label="assert")
             ck.stage("assert-flavour", t=round(time.time() - t0, 1))
-    # ties that broke without a property violation
+    # ties that broke: the model and the implementation disagree on a concrete input although the
+    # property itself is not violated by it -> reported with that input, marked no-failing-input-found
     seen = set()
     for c, name, det in tie_breaks:
-        key = name
-        if key in seen:
+        if name in seen:
             continue
-        seen.add(key)
-        ck.broken_ties.append({"kind": "correspondence", "name": name, "first_diff": det,
-                               "input": c.to_json() if c is not None else None,
-                               "count": sum(1 for t in tie_breaks if t[1] == name)})
+        seen.add(name)
+        ck.violation({"stage": "tie", "theorem_or_correspondence": name,
+                      "input": c.to_json() if c is not None else det,
+                      "first_diff": det, "count": sum(1 for t in tie_breaks if t[1] == name),
+                      "how_to_rerun": "cd /verif && ./check C11 --replay <this file>"},
+                     what="correspondence '%s' broke: model and implementation disagree (%s)" % (name, str(det)[:300]),
+                     signature="C11:tie:" + name, found_input=False)
+    if ck.broken_ties:
+        ck.violation({"stage": "proof", "broken": ck.broken_ties,
+                      "search": "token-level and module-level correspondences were run, see the other replays"},
+                     what="proof obligation no longer checks: " + "; ".join(
+                         str(b.get("kind")) + ":" + str(b.get("name", b.get("targets", ""))) for b in ck.broken_ties),
+                     found_input=False)
+        ck.broken_ties = []
 finally:
     shutil.rmtree(RUN, ignore_errors=True)
 
